@@ -2878,3 +2878,38 @@ M('C20', 'or-signatures-resorted', PGP, MSGSIG, MSGSIG.replace("            self
 M('C20', 'or-sessionkey-one-per-recipient', PGP, MSGSIG, MSGSIG.replace("            self._sessionkeys.append(other)\n", "            if all(getattr(sk, 'encrypter', None) != getattr(other, 'encrypter', object()) for sk in self._sessionkeys):\n                self._sessionkeys.append(other)\n"), 'C20.5')
 M('C20', 'or-skesk-refused', PGP, MSGSIG, MSGSIG.replace("(PKESessionKey, SKESessionKey)", "PKESessionKey"), 'C20.5')
 M('C20', 'trailing-sigs-sorted-by-time', PGP, "            for sig in self._signatures:\n                yield sig\n\n    def __or__(self, other):\n        if isinstance(other, Marker):", "            for sig in sorted(self._signatures, key=lambda s: s.created):\n                yield sig\n\n    def __or__(self, other):\n        if isinstance(other, Marker):", 'C20.2')
+# =============================================================================================== C18.8 / C18.9 (wave-2 seeded shapes) and further kinds
+TYP = 'pgpy/packet/types.py'
+_SUBKEY = "            npk = PrivSubKeyV4()\n            npk.pkalg = key._key.pkalg\n            npk.created = key._key.created\n            npk.keymaterial = key._key.keymaterial\n            key._key = npk\n"
+T('C18', 'twin-subkey-conversion-source-temp', PGP, _SUBKEY,
+  "            primary_packet = key._key\n            sub_packet = PrivSubKeyV4()\n            sub_packet.created = primary_packet.created\n            sub_packet.keymaterial = primary_packet.keymaterial\n            sub_packet.pkalg = primary_packet.pkalg\n            key._key = sub_packet\n")
+T('C18', 'twin-packet-copy-renamed-reordered', PK, "        pk = self.__class__()\n        pk.header = copy.copy(self.header)\n        pk.created = self.created\n        pk.pkalg = self.pkalg\n        pk.keymaterial = copy.copy(self.keymaterial)\n\n        return pk",
+  "        source = self\n        dup = source.__class__()\n        dup.pkalg = source.pkalg\n        material = copy.copy(source.keymaterial)\n        dup.keymaterial = material\n        dup.created = source.created\n        dup.header = copy.copy(source.header)\n        return dup")
+M('C18', 'subkey-created-from-new-parent', PGP, "            npk.created = key._key.created\n", "            npk.created = self._key.created\n", 'C18.8')
+M('C18', 'subkey-created-left-at-now', PGP, "            npk.created = key._key.created\n", "", 'C18.8')
+M('C18', 'subkey-material-from-temp-of-parent', PGP, _SUBKEY,
+  "            old = key._key\n            mine = self._key\n            npk = PrivSubKeyV4()\n            npk.pkalg = old.pkalg\n            npk.created = old.created\n            npk.keymaterial = mine.keymaterial\n            key._key = npk\n", 'C18.8')
+M('C18', 'packet-copy-created-normalised', PK, "        pk.created = self.created\n        pk.pkalg = self.pkalg\n        pk.keymaterial = copy.copy(self.keymaterial)", "        pk.created = self.created.replace(tzinfo=None)\n        pk.pkalg = self.pkalg\n        pk.keymaterial = copy.copy(self.keymaterial)", 'C18.8')
+M('C18', 'packet-copy-keeps-default-material', PK, "        pk.pkalg = self.pkalg\n        pk.keymaterial = copy.copy(self.keymaterial)\n\n        return pk", "        pk.pkalg = self.pkalg\n        pk.keymaterial = copy.copy(pk.keymaterial)\n\n        return pk", 'C18.8')
+M('C18', 'pubkey-created-of-now-via-temp', PK, "        pk.created = self.created\n        pk.pkalg = self.pkalg\n\n        # copy over MPIs", "        stamp = datetime.now(timezone.utc)\n        pk.created = stamp\n        pk.pkalg = self.pkalg\n\n        # copy over MPIs", 'C18')
+_ECP = "        pk = self.__class__()\n        pk.bytelen = self.bytelen\n        pk.format = self.format\n        pk.x = copy.copy(self.x)\n        pk.y = copy.copy(self.y)\n        return pk"
+T('C18', 'twin-ecpoint-copy-renamed-reordered', FL, _ECP, "        src = self\n        point = src.__class__()\n        point.x = copy.copy(src.x)\n        point.y = copy.copy(src.y)\n        width = src.bytelen\n        point.format = src.format\n        point.bytelen = width\n        return point")
+T('C18', 'twin-ecdh-copy-temporaries', FL, "        pkt = super(ECDHPub, self).__copy__()\n        pkt.oid = self.oid\n        pkt.kdf = copy.copy(self.kdf)\n        return pkt", "        dup = super().__copy__()\n        kdf = copy.copy(self.kdf)\n        dup.kdf = kdf\n        dup.oid = self.oid\n        return dup")
+M('C18', 'ecpoint-copy-via-from-values-width-from-value', FL, _ECP,
+  "        if self.format == ECPointFormat.Standard:\n            bitlen = max(self.x.bit_length(), self.y.bit_length())\n        else:\n            bitlen = 8 * len(self.x)\n        return self.from_values(bitlen, self.format, copy.copy(self.x), copy.copy(self.y))", 'C18.9')
+M('C18', 'ecpoint-copy-width-recomputed', FL, "        pk.bytelen = self.bytelen\n        pk.format = self.format", "        pk.bytelen = max(self.x.byte_length(), self.y.byte_length()) if self.y is not None else 0\n        pk.format = self.format", 'C18.9')
+M('C18', 'ecpoint-copy-format-normalised', FL, "        pk.bytelen = self.bytelen\n        pk.format = self.format", "        pk.bytelen = self.bytelen\n        pk.format = ECPointFormat.Standard", 'C18.9')
+M('C18', 'ecpoint-copy-y-dropped', FL, "        pk.x = copy.copy(self.x)\n        pk.y = copy.copy(self.y)\n        return pk", "        pk.x = copy.copy(self.x)\n        pk.y = None\n        return pk", 'C18.9')
+M('C18', 'ecdh-copy-kdf-default', FL, "        pkt.oid = self.oid\n        pkt.kdf = copy.copy(self.kdf)\n        return pkt", "        pkt.oid = self.oid\n        return pkt", 'C18.9')
+M('C18', 'ecdsa-copy-oid-from-copy-itself', FL, "        pkt = super(ECDSAPub, self).__copy__()\n        pkt.oid = self.oid", "        pkt = super(ECDSAPub, self).__copy__()\n        pkt.oid = pkt.oid", 'C18.9')
+M('C18', 'material-copy-skips-first-integer', TYP, "        for m in self.__mpis__:\n            setattr(pk, m, copy.copy(getattr(self, m)))", "        for m in list(self.__mpis__)[1:]:\n            setattr(pk, m, copy.copy(getattr(self, m)))", 'C18.9')
+M('C18', 'material-copy-normalises-integers', TYP, "            setattr(pk, m, copy.copy(getattr(self, m)))", "            setattr(pk, m, MPI(abs(int(getattr(self, m)))))", 'C18.9')
+M('C18', 'pubfields-not-among-copied-integers', FL, "        for i in self.__pubfields__:\n            yield i", "        for i in self.__pubfields__[1:]:\n            yield i", 'C18.9')
+# --- other kinds
+M('C18', 'fingerprint-cached-never-invalidated', PK, "        fp = hashlib.new('sha1')\n\n        plen = self.keymaterial.publen()", "        if getattr(self, '_fpr_cache', None) is not None:\n            return self._fpr_cache\n        fp = hashlib.new('sha1')\n\n        plen = self.keymaterial.publen()",
+  'C18.1', more=[(PK, "        return Fingerprint(fp.hexdigest().upper())", "        self._fpr_cache = Fingerprint(fp.hexdigest().upper())\n        return self._fpr_cache")])
+M('C18', 'key-fingerprint-cached-on-key-object', PGP, "        if self._key:\n            return self._key.fingerprint\n", "        if self._key:\n            if getattr(self, '_fp', None) is None:\n                self._fp = self._key.fingerprint\n            return self._fp\n", 'C18.4')
+M('C18', 'keyid-first-16-digits', TY, "        return self[-16:]", "        return self[:16]", 'C18.4')
+M('C18', 'subkey-index-by-first-16-digits', PGP, "        self._children[key.fingerprint.keyid] = key\n        key._parent = self", "        self._children[key.fingerprint[:16]] = key\n        key._parent = self", 'C18.4')
+M('C18', 'signer-id-first-16-digits-via-temp', PGP, "        sig = PGPSignature.new(SignatureType.DirectlyOnKey, self.key_algorithm, hash_algo, self.fingerprint.keyid, created=prefs.pop('created', None))",
+  "        fpr = self.fingerprint\n        sig = PGPSignature.new(SignatureType.DirectlyOnKey, self.key_algorithm, hash_algo, fpr[:16], created=prefs.pop('created', None))", 'C18')
